@@ -85,6 +85,13 @@ def run(ctx):
                                   "tol": hexf(ltol), "shape": shape, "timeout": 120})
                 cases.append({"fn": "completion", "coefs": [hexf(x) for x in F], "coef_type": rng.choice(["F", "f"]), "npseed": rng.randrange(2 ** 31),
                               "shape": shape, "timeout": 120})
+        # many more members with a few seed vectors each (root configurations vary with F: 1, 2, 3, ... real roots inside the circle)
+        for n in range(1, 13):
+            for rep in range((10 if n % 2 else 4) if quick else 40):
+                shape = rng.choice(["sym", "antisym", "generic", "dominant", "decay"])
+                F = gen_F(rng, n, rng.uniform(0.2, 0.9), shape, 1e-3 * (1 + 1e-9))
+                for sv in ([0] * n, [1] * n, [rng.randint(0, 1) for _ in range(n)]):
+                    cases.append({"fn": "completion", "coefs": [hexf(x) for x in F], "coef_type": "F", "seed": sv, "shape": shape, "timeout": 120})
         # outside the family: other tolerances, larger n, unbounded F, tiny extremes
         for j in range(80 if quick else 1200):
             n = rng.choice([rng.randint(1, 12), rng.randint(1, 12), 16, 24, 1, 2, 3])
